@@ -352,11 +352,16 @@ func validateMem(d Dir) (v verdict) {
 }
 
 func validateLocal(scratch string, d Dir) (v verdict, ok bool) {
-	dir, err := os.MkdirTemp(scratch, "ld-")
+	top, err := os.MkdirTemp(scratch, "ld-")
 	if err != nil {
 		return v, false
 	}
-	defer os.RemoveAll(dir)
+	defer os.RemoveAll(top)
+	// a directory whose own path holds glob meta characters (they must not be read as a pattern)
+	dir := filepath.Join(top, "app[v2]", "migrations[1]")
+	if err := os.MkdirAll(dir, 0o755); err != nil {
+		return v, false
+	}
 	for n, c := range d {
 		if strings.ContainsAny(n, "/\x00") || n == "" {
 			return v, false
@@ -451,6 +456,35 @@ func evalCase(c *rt.Ctx, cs Case, idx int) {
 	if key, what := judge(cls, "mem", v, kind); key != "" {
 		c.Violation(key, what, cs, map[string]any{"error": fmt.Sprint(v.err)})
 		return
+	}
+	// Archive leg: packing and unpacking a directory must not launder a protected edit, and must keep
+	// an untouched directory valid.
+	if idx%7 == 0 && (cls == "P" || cls == "U") {
+		var av verdict
+		refused := false
+		p, val, st := rt.Try(func() {
+			arc, err := migrate.ArchiveDir(toMem(cs.Ed))
+			if err != nil {
+				refused = true
+				return
+			}
+			d2, err := migrate.UnarchiveDir(arc)
+			if err != nil {
+				refused = true
+				return
+			}
+			av.err = migrate.Validate(d2)
+		})
+		if p {
+			av.panic_, av.stack = val, st
+		}
+		if !refused {
+			c.Count("archive-round-trip-checked", 1)
+			if key, what := judge(cls, "archive", av, kind); key != "" {
+				c.Violation(key, "after ArchiveDir/UnarchiveDir: "+what, cs, map[string]any{"error": fmt.Sprint(av.err)})
+				return
+			}
+		}
 	}
 	// LocalDir leg on a deterministic sample (file system round trip; names must be representable).
 	if idx%23 == 0 {
